@@ -1,4 +1,5 @@
 import IstioModel.C06.Lemmas
+import IstioModel.C06.SdsKey
 
 /-!
 C06 - theorems about the xDS cache model (`Model.lean`).
@@ -16,7 +17,8 @@ the cache mutex, so an interleaving of goroutines is a sequence of operations.
 * `never_stale_incoherent_witness`                 the discipline is necessary (model-level witness, cf. F8)
 * `key_injective_invisible`, `key_incomplete_witness`  sharing across proxies is exactly key (in)completeness
 * `index_justified`, `flush_no_leak`                after `Flush` the reverse index holds exactly the live dependencies
-* `impl_*`                                         `XdsCacheImpl`: dispatch, PeerAuthentication => EDS ClearAll
+* `impl_*`, `proj`, `projRun`                       `XdsCacheImpl`: explicit projection to the single-cache model, lifted
+                                                   `impl_never_stale` / `impl_cache_invisible`, PeerAuthentication => EDS ClearAll
 -/
 set_option linter.unusedSectionVars false
 namespace IstioModel.C06
@@ -293,37 +295,53 @@ theorem never_stale_token (cap : Nat) (ops : List (Op K C V)) (hm : AllOps MonoC
 /-! ## The coherent-writer discipline and cache invisibility -/
 
 /-- The system around the cache, as far as the property needs it.
-    `A` proxies/requests, `key` the cache key function, `read` the part of a request that generation
-    reads, `X` config contents, `W n` the world (content of every config) after `n` accepted changes,
-    `gen` the generator. -/
+    `A` proxies/requests; `read a` the part of a request that generation reads; `X` config contents;
+    `W n` the world (content of every config) after `n` accepted changes; `depsOf r` the configs
+    generation reads for `r` (what `DependentConfigs()` must name); `gen r S` the generator on snapshot
+    `S`; `key a S` the cache key computed for request `a` **on snapshot `S`** (real keys hash names and
+    versions of configs found in the snapshot, e.g. the applicable DestinationRule or `peerAuthVersion`).
+
+    Restriction of this formalisation: the dependency list is a function of the request part `read a`
+    alone, not of the snapshot (in the real code the *set* of applicable configs can change with the
+    snapshot; then the key changes as well, which the model does not express). -/
 structure Discipline (K C V A R X : Type) where
-  key : A → K
+  key : A → (C → X) → K
   read : A → R
-  gen : R → List C → (C → X) → V
+  depsOf : R → List C
+  gen : R → (C → X) → V
   W : Nat → C → X
 
 variable {A R X : Type}
 
-/-- generation reads the world only through the declared dependencies -/
+/-- **GenLocal**: generation reads the world only through the declared dependencies
+    (`DependentConfigs()` names every config generation reads). A system hypothesis: validated on the
+    real generators by stream `writers`, not proved. -/
 def Discipline.GenLocal (D : Discipline K C V A R X) : Prop :=
-  ∀ r deps S S', (∀ d ∈ deps, S d = S' d) → D.gen r deps S = D.gen r deps S'
+  ∀ r S S', (∀ d ∈ D.depsOf r, S d = S' d) → D.gen r S = D.gen r S'
 
-/-- the cache key determines everything generation reads of the request -/
+/-- the key reads the world only through the declared dependencies as well -/
+def Discipline.KeyLocal (D : Discipline K C V A R X) : Prop :=
+  ∀ a S S', (∀ d ∈ D.depsOf (D.read a), S d = S' d) → D.key a S = D.key a S'
+
+/-- **KeyComplete**: on one snapshot, the cache key determines everything generation reads of the
+    request. Validated on the real key functions by stream `keys`, not proved. -/
 def Discipline.KeyComplete (D : Discipline K C V A R X) : Prop :=
-  ∀ a b, D.key a = D.key b → D.read a = D.read b
+  ∀ a b S, D.key a S = D.key b S → D.read a = D.read b
 
 /-- What one writer / invalidator must respect (side condition of an operation, relative to the
     invalidations executed before it).
 
-    * a writer stores, under the key of its request `a`, the value generated from some snapshot
-      `W snap` (`snap` = number of accepted changes its data reflects), and its token is **older than
-      every already executed invalidation of one of its dependencies that the snapshot does not
-      reflect** - this is what "the token is read no later than the snapshot" gives;
+    * a writer stores, under the key of its request `a` computed on its snapshot `W snap` (`snap` =
+      number of accepted changes its data reflects), with the dependencies `depsOf (read a)`, the value
+      generated from that snapshot, and its token is **older than every already executed invalidation of
+      one of its dependencies that the snapshot does not reflect** - this is what "the token is read no
+      later than the snapshot" gives;
     * an invalidation reads a monotone clock, and a `Clear cs` changes the content of the configs in
       `cs` only (`ClearAll` may change everything). -/
 def Coherent (D : Discipline K C V A R X) (hist : List (Inval C)) : Op K C V → Prop
   | .add k v (some tok) deps =>
-    v = none ∨ ∃ a snap, k = D.key a ∧ snap ≤ hist.length ∧ v = some (D.gen (D.read a) deps (D.W snap)) ∧
+    v = none ∨ ∃ a snap, k = D.key a (D.W snap) ∧ deps = D.depsOf (D.read a) ∧ snap ≤ hist.length ∧
+      v = some (D.gen (D.read a) (D.W snap)) ∧
       ∀ j (hj : j < hist.length), snap ≤ j → (∃ d ∈ deps, (hist[j]).covers d = true) → tok < (hist[j]).time
   | .clear now cs _ =>
     (∀ i ∈ hist, i.time ≤ now) ∧ ∀ d, d ∉ cs → D.W (hist.length + 1) d = D.W hist.length d
@@ -357,12 +375,14 @@ theorem world_stable {D : Discipline K C V A R X} {hist : List (Inval C)} (hf : 
     have h2 := ih (by omega) d hd
     rw [← h2, ← h1]; rfl
 
-/-- Ghost invariant of the disciplined system. -/
+/-- Ghost invariant of the disciplined system: every stored value is what generation yields on the
+    current world for some request whose key **on the current world** is the entry's key. -/
 structure FreshInv (D : Discipline K C V A R X) (c : Cache K C V) (hist : List (Inval C)) : Prop where
   tokinv : TokInv c hist
   frame : Frame D hist
   fresh : ∀ e ∈ c.store, ∀ v, e.val = some v →
-    ∃ a, e.key = D.key a ∧ v = D.gen (D.read a) e.deps (D.W hist.length)
+    ∃ a, e.key = D.key a (D.W hist.length) ∧ e.deps = D.depsOf (D.read a) ∧
+      v = D.gen (D.read a) (D.W hist.length)
 
 theorem Frame.snoc_clear {D : Discipline K C V A R X} {hist : List (Inval C)} (hf : Frame D hist)
     (x : Inval C) (hx : ∀ d, x.covers d = false → D.W (hist.length + 1) d = D.W hist.length d) :
@@ -378,7 +398,7 @@ theorem Frame.snoc_clear {D : Discipline K C V A R X} {hist : List (Inval C)} (h
     simp only [Nat.sub_self, List.getElem_cons_zero] at hc
     exact hx d hc
 
-theorem FreshInv.step {D : Discipline K C V A R X} (hloc : D.GenLocal) {c : Cache K C V}
+theorem FreshInv.step {D : Discipline K C V A R X} (hloc : D.GenLocal) (hkl : D.KeyLocal) {c : Cache K C V}
     {hist : List (Inval C)} (h : FreshInv D c hist) (op : Op K C V) (hc : Coherent D hist op) :
     FreshInv D (c.step op) (hist ++ op.inval) := by
   have htok := h.tokinv.step op hc.mono
@@ -401,13 +421,16 @@ theorem FreshInv.step {D : Discipline K C V A R X} (hloc : D.GenLocal) {c : Cach
       simp [Inval.covers] at hcv
       exact hc.2 d hcv
     · intro e he v hv
-      obtain ⟨a, hk, hgen⟩ := h.fresh e (mem_clear_store he).1 v hv
-      refine ⟨a, hk, ?_⟩
-      rw [hgen]
-      simp only [Op.inval, List.length_append, List.length_singleton]
-      apply hloc
-      intro d hd
-      exact (hc.2 d ((clear_effective h.tokinv.inv.idx now cs ord).1 e he d hd)).symm
+      obtain ⟨a, hk, hd, hgen⟩ := h.fresh e (mem_clear_store he).1 v hv
+      -- the surviving entry depends on nothing that was cleared: the new world agrees on its dependencies
+      have hagree : ∀ d ∈ D.depsOf (D.read a), D.W (hist.length + 1) d = D.W hist.length d := by
+        intro d hdm
+        exact hc.2 d ((clear_effective h.tokinv.inv.idx now cs ord).1 e he d (hd ▸ hdm))
+      refine ⟨a, ?_, hd, ?_⟩
+      · simp only [Op.inval, List.length_append, List.length_singleton]
+        rw [hk]; exact (hkl a _ _ hagree).symm
+      · simp only [Op.inval, List.length_append, List.length_singleton]
+        rw [hgen]; exact (hloc _ _ _ hagree).symm
   | add k v start deps =>
     refine ⟨htok, by simpa [Op.inval] using h.frame, ?_⟩
     intro e he w hw
@@ -416,15 +439,9 @@ theorem FreshInv.step {D : Discipline K C V A R X} (hloc : D.GenLocal) {c : Cach
     · exact h.fresh e ho w hw
     · subst hst
       simp only at hw
-      rcases hc with hnone | ⟨a, snap, hk, hsn, hval, hcoh⟩
+      rcases hc with hnone | ⟨a, snap, hk, hdeps, hsn, hval, hcoh⟩
       · rw [hnone] at hw; cases hw
-      · refine ⟨a, hk, ?_⟩
-        rw [hval] at hw
-        injection hw with hw
-        rw [← hw]
-        apply hloc
-        intro d hd
-        -- every executed invalidation that the snapshot does not reflect is too new to cover `d`
+      · -- every executed invalidation that the snapshot does not reflect is too new to cover a dependency
         have hun : ∀ j (hj : j < hist.length), snap ≤ j → ∀ d ∈ deps, (hist[j]).covers d = false := by
           intro j hj hsj d hd
           cases hcv : (hist[j]).covers d with
@@ -433,18 +450,26 @@ theorem FreshInv.step {D : Discipline K C V A R X} (hloc : D.GenLocal) {c : Cach
             have h1 := hcoh j hj hsj ⟨d, hd, hcv⟩
             have h2 := h.tokinv.tok (hist[j]) (List.getElem_mem hj)
             omega
-        have := world_stable h.frame snap deps hun (hist.length - snap) (by omega) d hd
-        rw [← this]
-        congr 1
-        omega
+        have hagree : ∀ d ∈ D.depsOf (D.read a), D.W snap d = D.W hist.length d := by
+          intro d hd
+          have := world_stable h.frame snap deps hun (hist.length - snap) (by omega) d (hdeps ▸ hd)
+          rw [← this]
+          congr 1
+          omega
+        rw [hval] at hw
+        injection hw with hw
+        refine ⟨a, ?_, hdeps, ?_⟩
+        · show k = _
+          rw [hk]; exact hkl a _ _ hagree
+        · rw [← hw]; exact hloc _ _ _ hagree
 
-theorem FreshInv.run {D : Discipline K C V A R X} (hloc : D.GenLocal) {c : Cache K C V}
+theorem FreshInv.run {D : Discipline K C V A R X} (hloc : D.GenLocal) (hkl : D.KeyLocal) {c : Cache K C V}
     {hist : List (Inval C)} (h : FreshInv D c hist) (ops : List (Op K C V))
     (hc : AllOps (Coherent D) hist ops) : FreshInv D (c.run ops) (hist ++ histOf ops) := by
   induction ops generalizing c hist with
   | nil => simpa [histOf, Cache.run] using h
   | cons op ops ih =>
-    have := ih (h.step hloc op hc.1) hc.2
+    have := ih (h.step hloc hkl op hc.1) hc.2
     simpa [histOf, Cache.run, List.append_assoc] using this
 
 theorem FreshInv.init (D : Discipline K C V A R X) (cap : Nat) : FreshInv D (Cache.new cap) [] :=
@@ -452,27 +477,28 @@ theorem FreshInv.init (D : Discipline K C V A R X) (cap : Nat) : FreshInv D (Cac
    fun j hj => (by cases hj), fun e he => (by cases he)⟩
 
 /-- **never_stale.** With coherent writers, in every reachable state every stored value equals what
-    generation yields on the *current* world (after all accepted changes), for the request it was
-    stored for - under any interleaving of Get/Add/Clear/ClearAll/Flush/eviction by any number of
-    writers. -/
-theorem never_stale (D : Discipline K C V A R X) (hloc : D.GenLocal) (cap : Nat) (ops : List (Op K C V))
-    (hc : AllOps (Coherent D) [] ops) :
+    generation yields on the *current* world (after all accepted changes), for a request whose key on
+    the current world is the entry's key and whose dependencies are the entry's - under any interleaving
+    of Get/Add/Clear/ClearAll/Flush/eviction by any number of writers. -/
+theorem never_stale (D : Discipline K C V A R X) (hloc : D.GenLocal) (hkl : D.KeyLocal) (cap : Nat)
+    (ops : List (Op K C V)) (hc : AllOps (Coherent D) [] ops) :
     ∀ e ∈ ((Cache.new cap).run ops).store, ∀ v, e.val = some v →
-      ∃ a, e.key = D.key a ∧ v = D.gen (D.read a) e.deps (D.W (histOf ops).length) := by
-  have := (FreshInv.init D cap).run hloc ops hc
+      ∃ a, e.key = D.key a (D.W (histOf ops).length) ∧ e.deps = D.depsOf (D.read a) ∧
+        v = D.gen (D.read a) (D.W (histOf ops).length) := by
+  have := (FreshInv.init D cap).run hloc hkl ops hc
   simp only [List.nil_append] at this
   exact this.fresh
 
-/-- **cache_invisible.** If moreover the key is complete, whatever `Get` returns for proxy `b` is what a
-    fresh generation for `b` returns at that moment. -/
-theorem cache_invisible (D : Discipline K C V A R X) (hloc : D.GenLocal) (hkey : D.KeyComplete)
-    (cap : Nat) (ops : List (Op K C V)) (hc : AllOps (Coherent D) [] ops) (b : A) (v : V)
-    (hget : ((Cache.new cap).run ops).getVal (D.key b) = some v) :
-    ∃ deps, v = D.gen (D.read b) deps (D.W (histOf ops).length) := by
+/-- **cache_invisible.** If moreover the key is complete: whatever `Get` returns for proxy `b` - asking
+    with the key it computes on the *current* world - is exactly what a fresh generation for `b` on the
+    current world returns. -/
+theorem cache_invisible (D : Discipline K C V A R X) (hloc : D.GenLocal) (hkl : D.KeyLocal)
+    (hkey : D.KeyComplete) (cap : Nat) (ops : List (Op K C V)) (hc : AllOps (Coherent D) [] ops) (b : A) (v : V)
+    (hget : ((Cache.new cap).run ops).getVal (D.key b (D.W (histOf ops).length)) = some v) :
+    v = D.gen (D.read b) (D.W (histOf ops).length) := by
   obtain ⟨e, he, hk, hv⟩ := getVal_some hget
-  obtain ⟨a, hka, hgen⟩ := never_stale D hloc cap ops hc e he v hv
-  refine ⟨e.deps, ?_⟩
-  rw [hgen, hkey a b (hka.symm.trans hk)]
+  obtain ⟨a, hka, _, hgen⟩ := never_stale D hloc hkl cap ops hc e he v hv
+  rw [hgen, hkey a b _ (hka.symm.trans hk)]
 
 /-! ## Sharing across proxies is exactly key (in)completeness -/
 
@@ -489,14 +515,14 @@ theorem getVal_add_other {c : Cache K C V} (h : Inv c) (k k' : K) (hne : k' ≠ 
   · exact absurd hk.symm hne
 
 /-- **key_injective_invisible.** If the key is injective on what generation reads, two requests that
-    differ in a read attribute have different keys, and an entry inserted for one never becomes
-    visible to a lookup for the other. -/
+    differ in a read attribute have different keys on every snapshot, and an entry inserted for one never
+    becomes visible to a lookup for the other. -/
 theorem key_injective_invisible (D : Discipline K C V A R X) (hkey : D.KeyComplete) (a b : A)
-    (hdiff : D.read a ≠ D.read b) :
-    D.key a ≠ D.key b ∧
+    (hdiff : D.read a ≠ D.read b) (S : C → X) :
+    D.key a S ≠ D.key b S ∧
     ∀ (c : Cache K C V), Inv c → ∀ v start deps v',
-      (c.add (D.key a) v start deps).getVal (D.key b) = some v' → c.getVal (D.key b) = some v' := by
-  have hne : D.key a ≠ D.key b := fun h => hdiff (hkey a b h)
+      (c.add (D.key a S) v start deps).getVal (D.key b S) = some v' → c.getVal (D.key b S) = some v' := by
+  have hne : D.key a S ≠ D.key b S := fun h => hdiff (hkey a b S h)
   exact ⟨hne, fun c hc v start deps v' hget => getVal_add_other hc _ _ hne.symm v start deps v' hget⟩
 
 end
@@ -506,16 +532,22 @@ end
 /-- A world with one interesting config `0` whose content is the number of accepted changes;
     the generated value is that content; the key is the request itself. -/
 def D0 : Discipline Nat Nat Nat Nat Nat Nat :=
-  { key := fun a => a, read := fun a => a, gen := fun _ _ S => S 0, W := fun n d => if d = 0 then n else 0 }
+  { key := fun a _ => a, read := fun a => a, depsOf := fun _ => [0], gen := fun _ S => S 0,
+    W := fun n d => if d = 0 then n else 0 }
 
-theorem D0_genLocal_on_dep : ∀ r S S', (∀ d ∈ [0], S d = S' d) → D0.gen r [0] S = D0.gen r [0] S' := by
-  intro r S S' h; exact h 0 (by simp)
+theorem D0_genLocal : D0.GenLocal := by
+  intro r S S' h; exact h 0 (by simp [D0])
+
+theorem D0_keyLocal : D0.KeyLocal := fun _ _ _ _ => rfl
+
+theorem D0_keyComplete : D0.KeyComplete := fun _ _ _ h => h
 
 /-- a writer that only promises to have generated from *some* earlier snapshot (no relation between
     its token and that snapshot) -/
 def Uncoordinated (D : Discipline Nat Nat Nat Nat Nat Nat) (hist : List (Inval Nat)) : Op Nat Nat Nat → Prop
   | .add k v (some _) deps =>
-    v = none ∨ ∃ a snap, k = D.key a ∧ snap ≤ hist.length ∧ v = some (D.gen (D.read a) deps (D.W snap))
+    v = none ∨ ∃ a snap, k = D.key a (D.W snap) ∧ deps = D.depsOf (D.read a) ∧ snap ≤ hist.length ∧
+      v = some (D.gen (D.read a) (D.W snap))
   | .clear now cs _ =>
     (∀ i ∈ hist, i.time ≤ now) ∧ ∀ d, d ∉ cs → D.W (hist.length + 1) d = D.W hist.length d
   | .clearAll now _ => ∀ i ∈ hist, i.time ≤ now
@@ -524,8 +556,8 @@ def Uncoordinated (D : Discipline Nat Nat Nat Nat Nat Nat) (hist : List (Inval N
 /-- the statement of `cache_invisible` with the token clause of the discipline dropped -/
 def InvisibleWithoutTokenDiscipline : Prop :=
   ∀ (cap : Nat) (ops : List (Op Nat Nat Nat)), AllOps (Uncoordinated D0) [] ops → ∀ (b v : Nat),
-    ((Cache.new cap).run ops).getVal (D0.key b) = some v →
-      ∃ deps, v = D0.gen (D0.read b) deps (D0.W (histOf ops).length)
+    ((Cache.new cap).run ops).getVal (D0.key b (D0.W (histOf ops).length)) = some v →
+      v = D0.gen (D0.read b) (D0.W (histOf ops).length)
 
 /-- The schedule behind observation F8: the writer takes its snapshot (version 0), the change is
     accepted and `Clear` runs at time 10, the writer reads the clock (11) and stores its value: the
@@ -534,7 +566,8 @@ def staleSchedule : List (Op Nat Nat Nat) :=
   [.clear 10 [0] [], .add 7 (some 0) (some 11) [0], .get 7]
 
 /-- **never_stale_incoherent_witness.** Without the token clause of the discipline the cache is not
-    invisible: a writer that reads its snapshot before the clock stores a stale entry. -/
+    invisible (although `D0` satisfies GenLocal, KeyLocal and KeyComplete): a writer that reads its
+    snapshot before the clock stores a stale entry. -/
 theorem never_stale_incoherent_witness : ¬ InvisibleWithoutTokenDiscipline := by
   intro h
   have hadm : AllOps (Uncoordinated D0) [] staleSchedule := by
@@ -542,8 +575,8 @@ theorem never_stale_incoherent_witness : ¬ InvisibleWithoutTokenDiscipline := b
     · intro d hd
       have : d ≠ 0 := by simpa using hd
       simp [D0, this]
-    · exact Or.inr ⟨7, 0, rfl, by simp [Op.inval], by simp [D0]⟩
-  obtain ⟨deps, hv⟩ := h 3 staleSchedule hadm 7 0 (by decide)
+    · exact Or.inr ⟨7, 0, rfl, rfl, by simp [Op.inval], by simp [D0]⟩
+  have hv := h 3 staleSchedule hadm 7 0 (by decide)
   simp [D0, staleSchedule, histOf, Op.inval] at hv
 
 /-- the same schedule with a coherent token (9, read before the Clear at 10) is rejected -/
@@ -553,17 +586,17 @@ example : ((Cache.new 3 : Cache Nat Nat Nat).run
 /-- non-vacuity of `cache_invisible`: a coherent schedule that stores, invalidates, stores again and serves -/
 example : AllOps (Coherent D0) [] ([.add 7 (some 0) (some 5) [0], .get 7, .clear 10 [0] [7],
     .add 7 (some 0) (some 5) [0], .add 7 (some 1) (some 10) [0], .flush, .get 7] : List (Op Nat Nat Nat)) := by
-  refine ⟨Or.inr ⟨7, 0, rfl, by simp, by simp [D0], fun j hj => by simp at hj⟩, trivial, ?_, ?_, ?_, trivial, trivial, trivial⟩
+  refine ⟨Or.inr ⟨7, 0, rfl, rfl, by simp, by simp [D0], fun j hj => by simp at hj⟩, trivial, ?_, ?_, ?_, trivial, trivial, trivial⟩
   · refine ⟨fun i hi => (by cases hi), ?_⟩
     intro d hd
     have : d ≠ 0 := by simpa using hd
     simp [D0, this, Op.inval]
-  · refine Or.inr ⟨7, 0, rfl, by simp [Op.inval], by simp [D0], ?_⟩
+  · refine Or.inr ⟨7, 0, rfl, rfl, by simp [Op.inval], by simp [D0], ?_⟩
     intro j hj _ _
     simp [Op.inval] at hj
     subst hj
     simp [Op.inval]
-  · refine Or.inr ⟨7, 1, rfl, by simp [Op.inval], by simp [D0], ?_⟩
+  · refine Or.inr ⟨7, 1, rfl, rfl, by simp [Op.inval], by simp [D0], ?_⟩
     intro j hj hsj
     simp [Op.inval] at hj
     omega
@@ -573,59 +606,21 @@ example : ((Cache.new 3 : Cache Nat Nat Nat).run [.add 7 (some 0) (some 5) [0], 
 
 /-- A key that forgets an attribute generation reads (here: the key is constant). -/
 def Dbad : Discipline Nat Nat Nat Nat Nat Nat :=
-  { key := fun _ => 0, read := fun a => a, gen := fun r _ _ => r, W := fun _ _ => 0 }
+  { key := fun _ _ => 0, read := fun a => a, depsOf := fun _ => [], gen := fun r _ => r, W := fun _ _ => 0 }
 
 /-- **key_incomplete_witness.** With an incomplete key, proxy 2 is served the resource generated for
-    proxy 1 although every writer is coherent. -/
+    proxy 1 although every writer is coherent (and GenLocal / KeyLocal hold). -/
 theorem key_incomplete_witness :
-    ¬ Dbad.KeyComplete ∧
-    AllOps (Coherent Dbad) [] ([.add (Dbad.key 1) (some (Dbad.gen (Dbad.read 1) [] (Dbad.W 0))) (some 5) []] : List (Op Nat Nat Nat)) ∧
+    ¬ Dbad.KeyComplete ∧ Dbad.GenLocal ∧ Dbad.KeyLocal ∧
+    AllOps (Coherent Dbad) [] ([.add (Dbad.key 1 (Dbad.W 0)) (some (Dbad.gen (Dbad.read 1) (Dbad.W 0))) (some 5) []] : List (Op Nat Nat Nat)) ∧
     ((Cache.new 3 : Cache Nat Nat Nat).run
-      [.add (Dbad.key 1) (some (Dbad.gen (Dbad.read 1) [] (Dbad.W 0))) (some 5) []]).getVal (Dbad.key 2) = some 1 ∧
-    Dbad.gen (Dbad.read 2) [] (Dbad.W 0) = 2 := by
-  refine ⟨?_, ?_, by decide, rfl⟩
+      [.add (Dbad.key 1 (Dbad.W 0)) (some (Dbad.gen (Dbad.read 1) (Dbad.W 0))) (some 5) []]).getVal (Dbad.key 2 (Dbad.W 0)) = some 1 ∧
+    Dbad.gen (Dbad.read 2) (Dbad.W 0) = 2 := by
+  refine ⟨?_, fun _ _ _ _ => rfl, fun _ _ _ _ => rfl, ?_, by decide, rfl⟩
   · intro h
-    have := h 1 2 rfl
+    have := h 1 2 (fun _ => 0) rfl
     simp [Dbad] at this
-  · exact ⟨Or.inr ⟨1, 0, rfl, by simp, rfl, fun j hj => by simp at hj⟩, trivial⟩
-
-/-! ## The SDS key and the private key provider (finding fixed in /repo, see notes/C06.md)
-
-`SecretGen.generate` reads the private key provider of the *effective* ProxyConfig
-(`proxy.Metadata.ProxyConfigOrDefault(meshConfig.GetDefaultConfig())`): the proxy's own ProxyConfig when
-it sent one, else the mesh-wide default. Before the fix `parseResources` hashed only the proxy's own
-ProxyConfig into `SecretResource.Key`. -/
-
-/-- what SDS generation reads of a request, besides the resource name: `cfg = none` - the proxy sent
-    no ProxyConfig; `some none` - a ProxyConfig without private key provider; `some (some p)` - provider `p` -/
-structure SdsReq where
-  name : Nat
-  cfg : Option (Option Nat)
-  deriving DecidableEq
-
-/-- `ProxyConfigOrDefault(mesh default).GetPrivateKeyProvider()` -/
-def SdsReq.effective (mesh : Option Nat) (r : SdsReq) : Option Nat :=
-  match r.cfg with
-  | none => mesh
-  | some p => p
-
-/-- the key before the fix: `(*ProxyConfig)(proxy.Metadata.ProxyConfig).GetPrivateKeyProvider()` (nil-safe getter) -/
-def SdsReq.keyUnfixed (r : SdsReq) : Nat × Option Nat := (r.name, r.cfg.join)
-/-- the key after the fix -/
-def SdsReq.keyFixed (mesh : Option Nat) (r : SdsReq) : Nat × Option Nat := (r.name, r.effective mesh)
-
-/-- the repaired SDS key determines everything generation reads of the request -/
-theorem sds_key_complete (mesh : Option Nat) (a b : SdsReq) (h : a.keyFixed mesh = b.keyFixed mesh) :
-    a.name = b.name ∧ a.effective mesh = b.effective mesh := by
-  simp only [SdsReq.keyFixed, Prod.mk.injEq] at h
-  exact h
-
-/-- the old key is incomplete as soon as the mesh has a default provider: a proxy without ProxyConfig
-    and a proxy whose ProxyConfig names no provider share a key although generation differs
-    (replayed on the real code by corpus case `keys.pkp-mesh-default.ops`) -/
-theorem sds_key_witness_unfixed :
-    ∃ (mesh : Option Nat) (a b : SdsReq), a.keyUnfixed = b.keyUnfixed ∧ a.effective mesh ≠ b.effective mesh :=
-  ⟨some 1, ⟨0, none⟩, ⟨0, some none⟩, by decide, by decide⟩
+  · exact ⟨Or.inr ⟨1, 0, rfl, rfl, by simp, rfl, fun j hj => by simp at hj⟩, trivial⟩
 
 /-! ## The reverse index does not leak: every edge is live or pending in the evict queue -/
 
@@ -848,92 +843,125 @@ theorem typed_setTyped_other (x : Impl K C V) (t t' : Ty) (c : Option (Cache K C
     (x.setTyped t c).typed t' = x.typed t' := by
   cases t <;> cases t' <;> first | rfl | exact absurd rfl h
 
-/-- **Projection.** Every call on `XdsCacheImpl` acts on each typed cache as at most one operation of
-    the single-cache model (so every single-cache theorem applies to each of the four caches);
-    a disabled cache stays disabled. -/
 theorem map_run_nil (o : Option (Cache K C V)) : o.map (fun c => c.run []) = o := by
   cases o <;> rfl
 
-theorem impl_step_projects (isPA : C → Bool) (x : Impl K C V) (op : IOp K C V) (t : Ty) :
-    ∃ ops : List (Op K C V), ops.length ≤ 1 ∧
-      (Impl.step isPA x op).typed t = (x.typed t).map (fun c => c.run ops) := by
+/-- **Explicit projection.** What one call on `XdsCacheImpl` does to the typed cache `t`, as operations of the
+    single-cache model (`maxSize` = the value of `features.XDSCacheMaxSize` at the call). -/
+def proj (isPA : C → Bool) (maxSize : Int) (t : Ty) : IOp K C V → List (Op K C V)
+  | .add d v start => if dispatch d = .to t then [.add d.key v start d.deps] else []
+  | .get d => if dispatch d = .to t then [.get d.key] else []
+  | .clear now cs ord =>
+    if t = .eds ∧ cs.any isPA = true then [.clearAll now.eds (effCap maxSize)]
+    else [.clear (now.at t) cs (ord t)]
+  | .clearAll now => [.clearAll (now.at t) (effCap maxSize)]
+  | .flush => [.flush]
+  | .setMaxSize _ => []
+
+def maxSizeAfter (m : Int) : IOp K C V → Int
+  | .setMaxSize n => n
+  | _ => m
+
+/-- the single-cache history of typed cache `t` under a sequence of `XdsCacheImpl` calls -/
+def projRun (isPA : C → Bool) (m : Int) (t : Ty) : List (IOp K C V) → List (Op K C V)
+  | [] => []
+  | op :: rest => proj isPA m t op ++ projRun isPA (maxSizeAfter m op) t rest
+
+theorem impl_step_maxSize (isPA : C → Bool) (x : Impl K C V) (op : IOp K C V) :
+    (Impl.step isPA x op).maxSize = maxSizeAfter x.maxSize op := by
+  cases op with
+  | add d v start =>
+    simp only [Impl.step, Impl.add, maxSizeAfter]
+    cases dispatch d with
+    | skip => rfl
+    | crash => rfl
+    | to t => cases t <;> rfl
+  | get d =>
+    simp only [Impl.step, Impl.get, maxSizeAfter]
+    cases dispatch d with
+    | skip => rfl
+    | crash => rfl
+    | to t =>
+      cases hc : x.typed t with
+      | none => simp [hc]
+      | some c => cases t <;> simp [hc, Impl.setTyped]
+  | clear now cs ord => rfl
+  | clearAll now => rfl
+  | flush => rfl
+  | setMaxSize n => rfl
+
+/-- **Projection.** Every call on `XdsCacheImpl` acts on each typed cache exactly as the operations `proj`
+    names (so every single-cache theorem applies to each of the four caches); a disabled cache stays disabled. -/
+theorem impl_step_typed (isPA : C → Bool) (x : Impl K C V) (op : IOp K C V) (t : Ty) :
+    (Impl.step isPA x op).typed t = (x.typed t).map (fun c => c.run (proj isPA x.maxSize t op)) := by
   cases op with
   | add d v start =>
     cases hd : dispatch d with
-    | skip => exact ⟨[], by simp, by simp [Impl.step, Impl.add, hd, map_run_nil]⟩
-    | crash => exact ⟨[], by simp, by simp [Impl.step, Impl.add, hd, map_run_nil]⟩
+    | skip => simp [Impl.step, Impl.add, proj, hd, map_run_nil]
+    | crash => simp [Impl.step, Impl.add, proj, hd, map_run_nil]
     | to t' =>
       by_cases ht : t = t'
       · subst ht
-        refine ⟨[.add d.key v start d.deps], by simp, ?_⟩
-        simp only [Impl.step, Impl.add, hd, Option.getD_some, typed_setTyped_same]
+        simp only [Impl.step, Impl.add, proj, hd, Option.getD_some, typed_setTyped_same, if_true]
         cases x.typed t <;> rfl
-      · refine ⟨[], by simp, ?_⟩
-        simp only [Impl.step, Impl.add, hd, Option.getD_some, typed_setTyped_other _ _ _ _ ht, map_run_nil]
+      · have hne : Dispatch.to t' ≠ Dispatch.to t := fun h => ht (by injection h with h; exact h.symm)
+        simp only [Impl.step, Impl.add, proj, hd, Option.getD_some, typed_setTyped_other _ _ _ _ ht, hne, if_false,
+          map_run_nil]
   | get d =>
     cases hd : dispatch d with
-    | skip => exact ⟨[], by simp, by simp [Impl.step, Impl.get, hd, map_run_nil]⟩
-    | crash => exact ⟨[], by simp, by simp [Impl.step, Impl.get, hd, map_run_nil]⟩
+    | skip => simp [Impl.step, Impl.get, proj, hd, map_run_nil]
+    | crash => simp [Impl.step, Impl.get, proj, hd, map_run_nil]
     | to t' =>
-      cases hc : x.typed t' with
-      | none => exact ⟨[], by simp, by simp [Impl.step, Impl.get, hd, hc, map_run_nil]⟩
-      | some c =>
-        by_cases ht : t = t'
-        · subst ht
-          refine ⟨[.get d.key], by simp, ?_⟩
-          simp [Impl.step, Impl.get, hd, typed_setTyped_same, hc, Cache.run, Cache.step]
-        · refine ⟨[], by simp, ?_⟩
-          simp [Impl.step, Impl.get, hd, hc, typed_setTyped_other _ _ _ _ ht, map_run_nil]
+      by_cases ht : t = t'
+      · subst ht
+        cases hc : x.typed t with
+        | none => simp [Impl.step, Impl.get, proj, hd, hc]
+        | some c => simp [Impl.step, Impl.get, proj, hd, hc, typed_setTyped_same, Cache.run, Cache.step]
+      · have hne : Dispatch.to t' ≠ Dispatch.to t := fun h => ht (by injection h with h; exact h.symm)
+        cases hc : x.typed t' with
+        | none => simp [Impl.step, Impl.get, proj, hd, hc, hne, map_run_nil]
+        | some c => simp [Impl.step, Impl.get, proj, hd, hc, hne, typed_setTyped_other _ _ _ _ ht, map_run_nil]
   | clear now cs ord =>
     cases t with
     | eds =>
       by_cases hpa : cs.any isPA = true
-      · refine ⟨[.clearAll now.eds (effCap x.maxSize)], by simp, ?_⟩
-        simp only [Impl.step, Impl.clear, Impl.typed, hpa, if_true]
+      · simp only [Impl.step, Impl.clear, Impl.typed, proj, hpa, if_true, and_self]
         cases x.eds <;> rfl
-      · refine ⟨[.clear now.eds cs (ord .eds)], by simp, ?_⟩
-        simp only [Impl.step, Impl.clear, Impl.typed, hpa]
-        cases x.eds <;> rfl
-    | cds => exact ⟨[.clear now.cds cs (ord .cds)], by simp, by simp only [Impl.step, Impl.clear, Impl.typed]; cases x.cds <;> rfl⟩
-    | rds => exact ⟨[.clear now.rds cs (ord .rds)], by simp, by simp only [Impl.step, Impl.clear, Impl.typed]; cases x.rds <;> rfl⟩
-    | sds => exact ⟨[.clear now.sds cs (ord .sds)], by simp, by simp only [Impl.step, Impl.clear, Impl.typed]; cases x.sds <;> rfl⟩
+      · simp only [Impl.step, Impl.clear, Impl.typed, proj, hpa, Nows.at]
+        cases x.eds <;> simp [Cache.run, Cache.step]
+    | cds => simp only [Impl.step, Impl.clear, Impl.typed, proj, Nows.at]; cases x.cds <;> simp [Cache.run, Cache.step]
+    | rds => simp only [Impl.step, Impl.clear, Impl.typed, proj, Nows.at]; cases x.rds <;> simp [Cache.run, Cache.step]
+    | sds => simp only [Impl.step, Impl.clear, Impl.typed, proj, Nows.at]; cases x.sds <;> simp [Cache.run, Cache.step]
   | clearAll now =>
-    refine ⟨[.clearAll (now.at t) (effCap x.maxSize)], by simp, ?_⟩
     cases t
-    · simp only [Impl.step, Impl.clearAll, Impl.typed, Nows.at]; cases x.cds <;> rfl
-    · simp only [Impl.step, Impl.clearAll, Impl.typed, Nows.at]; cases x.eds <;> rfl
-    · simp only [Impl.step, Impl.clearAll, Impl.typed, Nows.at]; cases x.rds <;> rfl
-    · simp only [Impl.step, Impl.clearAll, Impl.typed, Nows.at]; cases x.sds <;> rfl
+    · simp only [Impl.step, Impl.clearAll, Impl.typed, proj, Nows.at]; cases x.cds <;> rfl
+    · simp only [Impl.step, Impl.clearAll, Impl.typed, proj, Nows.at]; cases x.eds <;> rfl
+    · simp only [Impl.step, Impl.clearAll, Impl.typed, proj, Nows.at]; cases x.rds <;> rfl
+    · simp only [Impl.step, Impl.clearAll, Impl.typed, proj, Nows.at]; cases x.sds <;> rfl
   | flush =>
-    refine ⟨[.flush], by simp, ?_⟩
     cases t
-    · simp only [Impl.step, Impl.flush, Impl.typed]; cases x.cds <;> rfl
-    · simp only [Impl.step, Impl.flush, Impl.typed]; cases x.eds <;> rfl
-    · simp only [Impl.step, Impl.flush, Impl.typed]; cases x.rds <;> rfl
-    · simp only [Impl.step, Impl.flush, Impl.typed]; cases x.sds <;> rfl
+    · simp only [Impl.step, Impl.flush, Impl.typed, proj]; cases x.cds <;> rfl
+    · simp only [Impl.step, Impl.flush, Impl.typed, proj]; cases x.eds <;> rfl
+    · simp only [Impl.step, Impl.flush, Impl.typed, proj]; cases x.rds <;> rfl
+    · simp only [Impl.step, Impl.flush, Impl.typed, proj]; cases x.sds <;> rfl
   | setMaxSize n =>
-    refine ⟨[], by simp, ?_⟩
-    cases t <;> simp [Impl.step, Impl.setMaxSize, Impl.typed, map_run_nil]
+    cases t <;> simp [Impl.step, Impl.setMaxSize, Impl.typed, proj, map_run_nil]
 
 theorem Cache.run_append (c : Cache K C V) (a b : List (Op K C V)) : c.run (a ++ b) = (c.run a).run b := by
   induction a generalizing c with
   | nil => rfl
   | cons op ops ih => exact ih (c.step op)
 
-/-- **Projection of whole histories.** For every sequence of calls on `XdsCacheImpl` and every typed cache
-    there is a sequence of single-cache operations (at most one per call) that produces that cache's
-    state: the four caches are four independent instances of the single-cache model. -/
-theorem impl_run_projects (isPA : C → Bool) (x : Impl K C V) (iops : List (IOp K C V)) (t : Ty) :
-    ∃ ops : List (Op K C V), ops.length ≤ iops.length ∧
-      (Impl.run isPA x iops).typed t = (x.typed t).map (fun c => c.run ops) := by
+/-- **Projection of whole histories.** After any sequence of calls on `XdsCacheImpl`, each typed cache is the
+    single-cache model run on its projected history `projRun`: the four caches are four independent
+    instances of the single-cache model. -/
+theorem impl_run_typed (isPA : C → Bool) (x : Impl K C V) (iops : List (IOp K C V)) (t : Ty) :
+    (Impl.run isPA x iops).typed t = (x.typed t).map (fun c => c.run (projRun isPA x.maxSize t iops)) := by
   induction iops generalizing x with
-  | nil => exact ⟨[], Nat.le_refl _, (map_run_nil _).symm⟩
+  | nil => exact (map_run_nil _).symm
   | cons op rest ih =>
-    obtain ⟨o1, h1, e1⟩ := impl_step_projects isPA x op t
-    obtain ⟨o2, h2, e2⟩ := ih (Impl.step isPA x op)
-    refine ⟨o1 ++ o2, by simp only [List.length_append, List.length_cons]; omega, ?_⟩
-    simp only [Impl.run]
-    rw [e2, e1]
+    simp only [Impl.run, projRun]
+    rw [ih (Impl.step isPA x op), impl_step_typed, impl_step_maxSize]
     cases x.typed t with
     | none => rfl
     | some c => simp [Cache.run_append]
@@ -944,15 +972,14 @@ def ImplInv (x : Impl K C V) : Prop := ∀ t c, x.typed t = some c → Inv c
 theorem ImplInv.step {isPA : C → Bool} {x : Impl K C V} (h : ImplInv x) (op : IOp K C V) :
     ImplInv (Impl.step isPA x op) := by
   intro t c hc
-  obtain ⟨ops, _, hp⟩ := impl_step_projects isPA x op t
-  rw [hp] at hc
+  rw [impl_step_typed] at hc
   cases hx : x.typed t with
   | none => rw [hx] at hc; cases hc
   | some c0 =>
     rw [hx] at hc
     simp only [Option.map_some, Option.some.injEq] at hc
     rw [← hc]
-    exact (h t c0 hx).run ops
+    exact (h t c0 hx).run _
 
 theorem impl_index_complete (isPA : C → Bool) (maxSize : Int) (cdsOn rdsOn : Bool) (ops : List (IOp K C V)) :
     ImplInv (Impl.run isPA (Impl.new maxSize cdsOn rdsOn : Impl K C V) ops) := by
@@ -968,6 +995,71 @@ theorem impl_index_complete (isPA : C → Bool) (maxSize : Int) (cdsOn rdsOn : B
   | nil => exact h0
   | cons op ops ih => exact ih _ (h0.step op)
 
+/-- the typed caches of a fresh `XdsCacheImpl` -/
+theorem impl_new_typed (maxSize : Int) (cdsOn rdsOn : Bool) (t : Ty) (c : Cache K C V)
+    (h : (Impl.new maxSize cdsOn rdsOn : Impl K C V).typed t = some c) : c = Cache.new (effCap maxSize) := by
+  cases t <;> simp only [Impl.new, Impl.typed] at h
+  · cases cdsOn <;> simp at h; exact h.symm
+  · simp at h; exact h.symm
+  · cases rdsOn <;> simp at h; exact h.symm
+  · simp at h; exact h.symm
+
+/-- every reachable typed cache of `XdsCacheImpl` is the single-cache model run on its projected history -/
+theorem impl_reachable_typed (isPA : C → Bool) (maxSize : Int) (cdsOn rdsOn : Bool) (iops : List (IOp K C V))
+    (t : Ty) (c : Cache K C V)
+    (hc : (Impl.run isPA (Impl.new maxSize cdsOn rdsOn : Impl K C V) iops).typed t = some c) :
+    c = (Cache.new (effCap maxSize)).run (projRun isPA maxSize t iops) := by
+  rw [impl_run_typed] at hc
+  cases hx : (Impl.new maxSize cdsOn rdsOn : Impl K C V).typed t with
+  | none => rw [hx] at hc; cases hc
+  | some c0 =>
+    rw [hx] at hc
+    simp only [Option.map_some, Option.some.injEq] at hc
+    rw [← hc, impl_new_typed maxSize cdsOn rdsOn t c0 hx]
+    rfl
+
+variable {A R X : Type}
+
+/-- The projection of one `XdsCacheImpl.Clear` is coherent for typed cache `t` as soon as the plain `Clear` of
+    that cache would be - including the PeerAuthentication case, where EDS runs `ClearAll` instead (which only
+    needs the monotone clock). -/
+theorem proj_clear_coherent (D : Discipline K C V A R X) (isPA : C → Bool) (m : Int) (t : Ty)
+    (hist : List (Inval C)) (now : Nows) (cs : List C) (ord : Ty → List K)
+    (h : Coherent D hist (.clear (now.at t) cs (ord t) : Op K C V)) :
+    AllOps (Coherent D) hist (proj isPA m t (.clear now cs ord : IOp K C V)) := by
+  simp only [proj]
+  by_cases hpa : t = .eds ∧ cs.any isPA = true
+  · simp only [hpa, and_self, if_true]
+    have : now.at t = now.eds := by rw [hpa.1]; rfl
+    exact ⟨by rw [← this]; exact h.1, trivial⟩
+  · simp only [hpa, if_false]
+    exact ⟨h, trivial⟩
+
+/-- **never_stale lifted to `XdsCacheImpl`.** For every sequence of calls on `XdsCacheImpl` whose projected
+    history of typed cache `t` is coherent, every value stored in that cache is what generation yields on the
+    current world. -/
+theorem impl_never_stale (D : Discipline K C V A R X) (hloc : D.GenLocal) (hkl : D.KeyLocal) (isPA : C → Bool)
+    (maxSize : Int) (cdsOn rdsOn : Bool) (iops : List (IOp K C V)) (t : Ty) (c : Cache K C V)
+    (hc : (Impl.run isPA (Impl.new maxSize cdsOn rdsOn : Impl K C V) iops).typed t = some c)
+    (hcoh : AllOps (Coherent D) [] (projRun isPA maxSize t iops)) :
+    ∀ e ∈ c.store, ∀ v, e.val = some v →
+      ∃ a, e.key = D.key a (D.W (histOf (projRun isPA maxSize t iops)).length) ∧ e.deps = D.depsOf (D.read a) ∧
+        v = D.gen (D.read a) (D.W (histOf (projRun isPA maxSize t iops)).length) := by
+  rw [impl_reachable_typed isPA maxSize cdsOn rdsOn iops t c hc]
+  exact never_stale D hloc hkl _ _ hcoh
+
+/-- **cache_invisible lifted to `XdsCacheImpl`** (including the dispatch on the entry type, disabled caches and
+    the PeerAuthentication => EDS `ClearAll` rule, all inside `projRun`). -/
+theorem impl_cache_invisible (D : Discipline K C V A R X) (hloc : D.GenLocal) (hkl : D.KeyLocal)
+    (hkey : D.KeyComplete) (isPA : C → Bool) (maxSize : Int) (cdsOn rdsOn : Bool) (iops : List (IOp K C V))
+    (t : Ty) (c : Cache K C V)
+    (hc : (Impl.run isPA (Impl.new maxSize cdsOn rdsOn : Impl K C V) iops).typed t = some c)
+    (hcoh : AllOps (Coherent D) [] (projRun isPA maxSize t iops)) (b : A) (v : V)
+    (hget : c.getVal (D.key b (D.W (histOf (projRun isPA maxSize t iops)).length)) = some v) :
+    v = D.gen (D.read b) (D.W (histOf (projRun isPA maxSize t iops)).length) := by
+  rw [impl_reachable_typed isPA maxSize cdsOn rdsOn iops t c hc] at hget
+  exact cache_invisible D hloc hkl hkey _ _ hcoh b v hget
+
 /-- **`XdsCacheImpl.Clear` is effective in all four caches**; a PeerAuthentication among the cleared
     configs empties the EDS cache entirely. -/
 theorem impl_clear_effective (isPA : C → Bool) {x : Impl K C V} (h : ImplInv x) (now : Nows) (cs : List C)
@@ -976,7 +1068,6 @@ theorem impl_clear_effective (isPA : C → Bool) {x : Impl K C V} (h : ImplInv x
     (cs.any isPA = true → ∀ c, (Impl.clear isPA x now cs ord).eds = some c → c.store = []) := by
   constructor
   · intro t c hc e he d hd
-    obtain ⟨ops, _, hp⟩ := impl_step_projects isPA x (.clear now cs ord) t
     cases t with
     | eds =>
       simp only [Impl.clear, Impl.typed] at hc
